@@ -209,12 +209,42 @@ impl Property for C07 {
         }
     }
     fn required_labels(&self, _tier: Tier) -> Vec<&'static str> {
-        vec!["nontrivial", "term-name-multibyte-at-255", "gene-name-multibyte-at-255", "name-over-255", "names-fit", "obsolete", "replaced", "empty-section", "record-without-terms", "max-term-id", "max-record-id", "file>65535-bytes", "non-calendar-version", "replacement-beyond-id-space"]
+        vec!["nontrivial", "term-name-multibyte-at-255", "gene-name-multibyte-at-255", "name-over-255", "names-fit", "obsolete", "replaced", "empty-section", "record-without-terms", "max-term-id", "max-record-id", "file>65535-bytes", "non-calendar-version", "replacement-beyond-id-space", "bulk>65535-terms", "depth>255"]
     }
     fn run_generated(&self, tier: Tier, seed: u64, n: u64, stats: &mut Stats) -> Option<(Value, Failure)> {
         run_typed(strategy(tier), seed, n, stats, check)
     }
     fn replay(&self, case: &Value, stats: &mut Stats) -> Result<CheckResult, String> {
+        if let Some(b) = case.get("bulk") {
+            // more than 65 535 terms (see `bulk_facts`), through the ordinary round-trip check
+            let v: (u32, u32, u32, PathSel) = serde_json::from_value(b.clone()).map_err(|e| e.to_string())?;
+            stats.cases += 1;
+            let c = OntCase { facts: bulk_facts(v.0, v.1, v.2), path: v.3, noise: Default::default() };
+            let r = check(&c, stats);
+            if r.is_ok() {
+                stats.label("bulk>65535-terms");
+            }
+            return Ok(r);
+        }
+        if let Some(b) = case.get("deep") {
+            let v: (u32, u32, u32, PathSel) = serde_json::from_value(b.clone()).map_err(|e| e.to_string())?;
+            stats.cases += 1;
+            let c = OntCase { facts: deep_facts(v.0, v.1, v.2), path: v.3, noise: Default::default() };
+            let r = check(&c, stats);
+            if r.is_ok() {
+                stats.label("depth>255");
+            }
+            return Ok(r);
+        }
         replay_typed::<OntCase, _>(case, stats, check)
+    }
+    fn isolated_plans(&self, tier: Tier, seed: u64) -> Vec<Value> {
+        let mult = [1_299_709u32, 7919, 104_729][(seed % 3) as usize];
+        let mut out = vec![json!({"bulk": (65_800u32, mult, 30u32, PathSel::BuilderDefaults)}), json!({"deep": (300u32, mult, 10u32, PathSel::Bin(3))})];
+        if tier == Tier::Thorough {
+            out.push(json!({"bulk": (70_100u32, mult, 200u32, PathSel::Bin(3))}));
+            out.push(json!({"deep": (4200u32, mult, 30u32, PathSel::BuilderDefaults)}));
+        }
+        out
     }
 }
